@@ -99,7 +99,22 @@ def call_kwargs(call: ast.Call, names: Sequence[str]) -> Dict[str, str]:
     return out
 
 
-def delegation(m: FnModel, rep, rule: str, relpath: str, target: str, want: Dict[str, str]) -> None:
+def _map_atoms(f, fn):
+    k = f[0]
+    if k == 'atom':
+        return ('atom', fn(f[1]))
+    if k == 'not':
+        return ('not', _map_atoms(f[1], fn))
+    if k in ('and', 'or'):
+        return (k,) + tuple(_map_atoms(x, fn) for x in f[1:])
+    return f
+
+
+def delegation(m: FnModel, rep, rule: str, relpath: str, target: str, want: Dict[str, str],
+               tm: Optional[FnModel] = None, boolean: bool = False) -> None:
+    """`m` is `target` with the given parameters: either it returns that call, or (when the
+    model `tm` of the target is given) its guarded returns agree with the target's, the
+    parameters substituted, in every world of the finite model"""
     f = m.func
     ok = len(m.returns) == 1 and isinstance(m.returns[0].value_node, ast.Call) \
         and src(m.returns[0].value_node.func) == target
@@ -107,37 +122,109 @@ def delegation(m: FnModel, rep, rule: str, relpath: str, target: str, want: Dict
     if ok:
         got = call_kwargs(m.returns[0].value_node, ['state', 'action', 'next_state'])
         ok = got == want
+    why = ''
+    if not ok and tm is not None and m.returns and \
+            not any(isinstance(n, ast.Call) and src(n.func) == target
+                    for r in m.returns if r.value_node is not None
+                    for n in ast.walk(r.value_node)):
+        import copy
+        from ..inline import _SubstNames
+        mp = {k: ast.parse(v, mode='eval').body for k, v in want.items()
+              if k not in ('state', 'action', 'next_state', 'rng')}
+        sub = lambda e: _SubstNames(mp).visit(copy.deepcopy(e))
+        t_rets = [(_map_atoms(r.guard, sub), sub(r.value_node) if r.value_node is not None
+                   else None) for r in tm.returns]
+
+        def value_in(rets, w):
+            for g, v in rets:
+                if m.ev.holds(g, w):
+                    if v is None:
+                        return 'None'
+                    if boolean:
+                        return str(bool(m.ev.holds(formula_of(v), w)))
+                    return src(v)
+            return None
+        m_rets = [(r.guard, r.value_node) for r in m.returns]
+        probes = [g for g, _ in m_rets + t_rets]
+        if boolean:
+            probes += [formula_of(v) for _, v in m_rets + t_rets if v is not None]
+        ok = True
+        for w in m.worlds(probes):
+            try:
+                a, b = value_in(m_rets, w), value_in(t_rets, w)
+            except OutOfGrid:
+                continue
+            if a != b:
+                ok = False
+                why = f': it yields {a} where {target} yields {b} when {describe_world(w)}'
+                break
     rep.check(ok, rule, relpath, f.name, f.node.lineno,
               m.returns[0].value if m.returns else f.name,
               f'{f.name} does not delegate to {target}({want}); it returns '
-              f'`{m.returns[0].value if m.returns else None}`', f'{f.name} -> {target}')
+              f'`{m.returns[0].value if m.returns else None}`{why}', f'{f.name} -> {target}')
 
 
 def closer_table(m: FnModel, rep, rule: str) -> None:
-    """getting_closer / getting_closer_shortest_path"""
+    """getting_closer / getting_closer_shortest_path: the returned value is selected by the
+    order of two distance terms which are one and the same expression D evaluated in the
+    state and in the next state (D may be a nested helper, a module helper, or inline)"""
     f = m.func
-    dn = [n for n in m.walk.local_funcs]
-    if len(dn) != 1:
+    from ..guards import atoms_of
+    import copy
+    from ..inline import _Rename
+    pairs = []
+    for r in m.returns:
+        for a in atoms_of(r.guard):
+            for n in ast.walk(a):
+                if isinstance(n, ast.Compare) and len(n.ops) == 1 and \
+                        isinstance(n.ops[0], (ast.Lt, ast.Gt, ast.LtE, ast.GtE, ast.Eq, ast.NotEq)):
+                    pairs.append((n.left, n.comparators[0]))
+    if not pairs:
         rep.violation(rule, REWARD, f.name, f.node.lineno, f.name,
-                      'expected one nested distance helper')
+                      'the reward is not selected by comparing two distances')
         return
-    helper = m.walk.local_funcs[dn[0]]
-    hp = [a.arg for a in helper.args.args]
-    free = {x.id for x in ast.walk(helper) if isinstance(x, ast.Name)}
-    outer_states = [a.arg for a in f.node.args.args[:3] if a.arg != f.node.args.args[1].arg]
-    leaked = [s for s in outer_states if s in free and s not in hp]
-    rep.check(len(hp) == 1 and not leaked, rule, REWARD, f.name, helper.lineno,
-              f'def {dn[0]}({", ".join(hp)})',
-              f'the distance helper reads the enclosing `{leaked}` instead of its own argument: '
-              f'both distances would be measured in the same state', 'helper uses its argument')
-    # helper measures the distance between the agent and the unique object of the type
-    hs = src(helper)
-    p = hp[0] if hp else 'state'
-    rep.check(f'{p}.agent.position' in hs and f'isinstance({p}.grid[' in hs
-              and 'object_type' in hs, rule, REWARD, f.name, helper.lineno, dn[0],
-              'the distance helper does not measure from the agent position to the object of '
-              'the given type', 'helper measures agent-object distance')
-    prev_t, next_t = f'{dn[0]}(S)', f'{dn[0]}(N)'
+
+    def states_of(e):
+        return {x.id for x in ast.walk(e) if isinstance(x, ast.Name) and x.id in ('S', 'N')}
+    a, b = pairs[0]
+    sa, sb = states_of(a), states_of(b)
+    if sa == {'S'} and sb == {'N'}:
+        prev_e, next_e = a, b
+    elif sa == {'N'} and sb == {'S'}:
+        prev_e, next_e = b, a
+    else:
+        rep.violation(rule, REWARD, f.name, f.node.lineno, f'{src(a)[:80]} ~ {src(b)[:80]}',
+                      f'the two distances compared are not one measured in the state and one in '
+                      f'the next state (they read {sorted(sa)} and {sorted(sb)})')
+        return
+    prev_t, next_t = src(prev_e), src(next_e)
+    swapped = src(_Rename({'S': 'N'}).visit(copy.deepcopy(prev_e)))
+    from ..inline import unprefix
+    rep.check(unprefix(swapped) == unprefix(next_t), rule, REWARD, f.name, f.node.lineno,
+              f'{prev_t[:100]} ~ {next_t[:100]}',
+              'the distance before and the distance after the step are not the same measure '
+              'applied to state and next_state', 'same measure in both states')
+    # nested helpers called by the terms must use their own argument
+    text = prev_t
+    for hn, helper in m.walk.local_funcs.items():
+        if hn not in {x.id for x in ast.walk(prev_e) if isinstance(x, ast.Name)}:
+            continue
+        hp = [x.arg for x in helper.args.args]
+        free = {x.id for x in ast.walk(helper) if isinstance(x, ast.Name)}
+        outer_states = [x.arg for x in f.node.args.args[:3] if x.arg != f.node.args.args[1].arg]
+        leaked = [s_ for s_ in outer_states if s_ in free and s_ not in hp]
+        rep.check(len(hp) == 1 and not leaked, rule, REWARD, f.name, helper.lineno,
+                  f'def {hn}({", ".join(hp)})',
+                  f'the distance helper reads the enclosing `{leaked}` instead of its own '
+                  f'argument: both distances would be measured in the same state',
+                  'helper uses its argument')
+        from ..inline import inline_pure_exprs
+        hx = inline_pure_exprs(m.index, f.module, None, helper)
+        text += ' ' + src(_Rename({hp[0]: 'S'}).visit(copy.deepcopy(hx))) if hp else src(hx)
+    rep.check('S.agent.position' in text and 'isinstance(S.grid[' in text
+              and 'object_type' in text, rule, REWARD, f.name, f.node.lineno, prev_t[:120],
+              'the distance does not measure from the agent position to the object of the '
+              'given type', 'measures agent-object distance')
 
     def spec(w: World) -> Optional[str]:
         keys = [k for k in w.vals if k[0] == 'ord' and set(k[1:]) == {prev_t, next_t}]
@@ -206,13 +293,16 @@ def run(index: RepoIndex, rep) -> None:
     # ---- delegations
     std = {'state': 'S', 'action': 'A', 'next_state': 'N', 'rng': 'rng'}
     delegation(need(R, 'reach_exit', 'reward'), rep, 'C12.R3', REWARD, 'overlap',
-               dict(std, object_type='Exit', reward_on='reward_on', reward_off='reward_off'))
+               dict(std, object_type='Exit', reward_on='reward_on', reward_off='reward_off'),
+               need(R, 'overlap', 'reward'))
     delegation(need(R, 'bump_moving_obstacle', 'reward'), rep, 'C12.R3', REWARD, 'overlap',
-               dict(std, object_type='MovingObstacle', reward_on='reward', reward_off='0.0'))
+               dict(std, object_type='MovingObstacle', reward_on='reward', reward_off='0.0'),
+               need(R, 'overlap', 'reward'))
     delegation(need(T, 'reach_exit', 'terminating'), rep, 'C12.R3', TERM, 'overlap',
-               dict(std, object_type='Exit'))
+               dict(std, object_type='Exit'), need(T, 'overlap', 'terminating'), boolean=True)
     delegation(need(T, 'bump_moving_obstacle', 'terminating'), rep, 'C12.R3', TERM, 'overlap',
-               dict(std, object_type='MovingObstacle'))
+               dict(std, object_type='MovingObstacle'), need(T, 'overlap', 'terminating'),
+               boolean=True)
 
     # ---- sibling predicates: the reward condition is the termination predicate
     for name in ('overlap', 'bump_into_wall'):
@@ -381,7 +471,8 @@ def run(index: RepoIndex, rep) -> None:
         m = need(d, name, relpath)
         delegation(m, rep, 'C12.R4', relpath, 'reduce',
                    {'state': 'S', 'action': 'A', 'next_state': 'N', plural: plural,
-                    'reduction': red, 'rng': 'rng'})
+                    'reduction': red, 'rng': 'rng'}, need(d, 'reduce', relpath),
+                   boolean=d is T)
     fe = index.func(FACTORY, 'factory_env_from_data')
     w = walk_function(fe.node)
     txt = src(fe.node)
